@@ -57,7 +57,7 @@ def server_strategy(T, stack):
 
 
 @st.composite
-def plans(draw, stacks=('thrift', 'thriftmux')):
+def plans(draw, stacks=('thrift', 'thriftmux'), max_calls=8):
   T = draw(st.sampled_from(TIMEOUTS))
   stack = draw(st.sampled_from(list(stacks)))
   nports = draw(st.integers(1, 4))
@@ -68,7 +68,7 @@ def plans(draw, stacks=('thrift', 'thriftmux')):
   if dynamic:
     events = draw(st.lists(st.tuples(st.integers(0, 3 * T), st.sampled_from(['join', 'leave']), st.sampled_from(ports)).map(list), max_size=4))
   servers = dict((str(p), draw(server_strategy(T, stack))) for p in ports)
-  ncalls = draw(st.integers(1, 8))
+  ncalls = draw(st.integers(1, max_calls))
   calls = []
   for i in range(ncalls):
     calls.append({'at': draw(st.integers(0, 2 * T)), 'method': 'hi', 'arg': 'c%d' % i,
@@ -91,7 +91,7 @@ def plans(draw, stacks=('thrift', 'thriftmux')):
 
 
 def strategy(tier):
-  return plans()
+  return plans(max_calls=8 if tier == 'quick' else 16)
 
 
 def check_calls(tr, prop=ID):
